@@ -3,6 +3,7 @@ mod c01;
 mod c02;
 mod c12;
 mod c16;
+mod c18;
 mod c20;
 mod common;
 
@@ -19,6 +20,7 @@ fn main() {
         "c02" => rt.block_on(c02::run(&args, &mut rep)),
         "c12" => rt.block_on(c12::run(&args, &mut rep)),
         "c16" => rt.block_on(c16::run(&args, &mut rep)),
+        "c18" => rt.block_on(c18::run(&args, &mut rep)),
         "c20" => rt.block_on(c20::run(&args, &mut rep)),
         other => {
             eprintln!("vacct: unknown check {}", other);
